@@ -286,6 +286,14 @@ def repl_case(draw):
         sess['kw']['sv'] = R.BASE
     n = draw(st.integers(1, 12))
     cmds = []
+    if draw(st.integers(0, 5)) == 0:
+        # scenario: some steps, one `exec` phrase that moves / leaves behind interpreter-internal state (code separator inside exec's temporary
+        # script, followed by an operation that fails or throws, or inside a skipped branch), then steps on to the signature checks
+        phrase = draw(st.sampled_from(['exec OP_CODESEPARATOR OP_1ADD', 'exec OP_CODESEPARATOR 0102030405 OP_1ADD', 'exec OP_CODESEPARATOR OP_2DROP OP_2DROP OP_2DROP OP_2DROP',
+                                       'exec OP_CODESEPARATOR OP_RETURN', 'exec OP_0 OP_IF OP_CODESEPARATOR OP_ENDIF', 'exec OP_CODESEPARATOR', 'exec OP_CODESEPARATOR OP_FROMALTSTACK',
+                                       'exec OP_CODESEPARATOR 2147483648 OP_NEGATE', 'exec OP_1 OP_IF OP_CODESEPARATOR', 'exec OP_CODESEPARATOR OP_PICK']))
+        cmds = ['step'] * draw(st.integers(0, 8)) + [phrase] + draw(st.sampled_from([[], [], ['rewind'], ['print'], [phrase]])) + ['step'] * draw(st.integers(1, 10))
+        return dict(sess=sess, cmds=cmds)
     for _ in range(n):
         k = draw(st.integers(0, 11))
         if k < 3:
@@ -360,6 +368,69 @@ def w_cmds(ctx, wid, seed, examples, tool):
 
 def w_repl(ctx, wid, seed, examples):
     core.hyp_campaign(ctx, 'repl', repl_case(), check_repl, examples, seed, repl_json)
+
+
+# ---------------------------------------------------------------- (b2) command sequences through the sanitizer build of the native harness
+EXEC_PHRASES = ['OP_CODESEPARATOR OP_1ADD', 'OP_CODESEPARATOR 0102030405 OP_1ADD', 'OP_CODESEPARATOR OP_2DROP OP_2DROP OP_2DROP OP_2DROP', 'OP_CODESEPARATOR OP_RETURN',
+                'OP_0 OP_IF OP_CODESEPARATOR OP_ENDIF', 'OP_CODESEPARATOR', 'OP_CODESEPARATOR OP_FROMALTSTACK', 'OP_CODESEPARATOR 2147483648 OP_NEGATE', 'OP_1 OP_IF OP_CODESEPARATOR',
+                'OP_CODESEPARATOR OP_PICK', 'OP_DUP OP_CHECKSIG', 'OP_2DUP OP_CHECKSIGVERIFY', 'OP_CHECKMULTISIG', 'OP_TOALTSTACK', 'OP_FROMALTSTACK', 'OP_IF', 'OP_ENDIF', 'OP_ELSE', 'OP_VERIFY', 'OP_DROP',
+                'OP_2DROP OP_2DROP', '0102030405 OP_1ADD', 'OP_1ADD', 'OP_DEPTH OP_ROLL', 'OP_CHECKSIGADD', 'OP_CODESEPARATOR OP_DUP OP_CHECKSIG']
+_HA = {}
+
+
+def harness_asan():
+    if 'h' not in _HA:
+        from ..harness import Harness
+        _HA['h'] = Harness('asan', timeout=60.0)
+    return _HA['h']
+
+
+@st.composite
+def asan_session_case(draw):
+    sess = draw(st.one_of(SS.legacy_spend(), SS.legacy_spend(), SS.tapscript_spend(), SS.codesep_mock(), SS.multi_script(), repl_special(), SS.plain('ctrl')))
+    cmds = []
+    for _ in range(draw(st.integers(1, 5))):
+        k = draw(st.integers(0, 9))
+        if k < 4:
+            cmds += ['s'] * draw(st.integers(1, 9))
+        elif k < 6:
+            cmds += ['r'] * draw(st.integers(1, 4))
+        else:
+            cmds.append('e:' + draw(st.sampled_from(EXEC_PHRASES)))
+    return dict(sess=sess, cmds=cmds)
+
+
+def asan_session_json(c):
+    kw = c['sess']['kw']
+    return dict(kind=c['sess']['kind'], session={a: (b.hex() if isinstance(b, bytes) else [x.hex() if isinstance(x, bytes) else x for x in b] if isinstance(b, list) else b) for a, b in kw.items()}, cmds=c['cmds'])
+
+
+def check_asan_session(c, ctx):
+    from ..harness import kvline
+    kw = dict(c['sess']['kw'])
+    kw['cmds'] = ','.join(x if not x.startswith('e:') else 'e:' + '+'.join(t.encode().hex() for t in x[2:].split(' ')) for x in c['cmds'])
+    kw['finish'] = 1
+    nexec = sum(1 for x in c['cmds'] if x.startswith('e:'))
+    ctx.case('as' + repr(asan_session_json(c)), True, asan_session_json(c), 'asan-session:' + c['sess']['kind'].split('-')[0])
+    ctx.count('asan-session-with-exec' if nexec else 'asan-session-steps-only')
+    h = harness_asan()
+    r = h.req(kvline('session', **kw))
+    if 'timeout' in r:
+        ctx.inconclusive += 1
+        return
+    if 'crash' in r or 'exit' in r:
+        raise Violation(asan_session_json(c), 'command sequence %r kills the sanitizer build of the session harness: %r' % (c['cmds'], r), observed=r)
+    if 'refused' in r:
+        return
+    # the start of the signed script code always lies inside the debugged script
+    for e in r['log']:
+        d = e['d']
+        if not (0 <= d['cs'] <= d['slen']):
+            raise Violation(asan_session_json(c), 'after command %r the start of the signed script code points outside the script (offset %d, script length %d)' % (e['c'], d['cs'], d['slen']), observed=d)
+
+
+def w_asan_sessions(ctx, wid, seed, examples):
+    core.hyp_campaign(ctx, 'asan-sessions', asan_session_case(), check_asan_session, examples, seed, asan_session_json)
 
 
 # ---------------------------------------------------------------- (c) libFuzzer targets
@@ -459,6 +530,7 @@ def run(tier, t0):
     for tool, share in (('btcdeb', 8), ('btcc', 2), ('tap', 3)):
         tasks += [(w_cmds, dict(examples=n, tool=tool)) for _ in range(share)]
     tasks += [(w_repl, dict(examples=nr)) for _ in range(4 if tier == 'quick' else 8)]
+    tasks += [(w_asan_sessions, dict(examples=nr * 12)) for _ in range(2 if tier == 'quick' else 4)]
     tasks += [(w_valgrind, dict(examples=nv)) for _ in range(2 if tier == 'quick' else 6)]
     fts = fuzz_targets()
     if fts:
@@ -479,7 +551,12 @@ def replay(rec):
         return p.returncode == 0, p.stdout.decode(errors='replace')[-800:]
     ctx = core.Ctx(PID)
     try:
-        if 'cmds' in c and 'spendtx' in c:
+        if 'cmds' in c and 'session' in c:
+            kw = {}
+            for a, b in c['session'].items():
+                kw[a] = bytes.fromhex(b) if a in ('script', 'succ') and isinstance(b, str) else ([bytes.fromhex(x) for x in b] if isinstance(b, list) else b)
+            check_asan_session(dict(sess=dict(kind=c.get('kind', '?'), kw=kw), cmds=c['cmds']), ctx)
+        elif 'cmds' in c and 'spendtx' in c:
             check_repl(dict(sess=dict(kw=dict(spendtx=c['spendtx'], spendtxin=c['spendtxin'])), cmds=c['cmds']), ctx)
         elif 'cmds' in c:
             check_repl(dict(sess=dict(kw=dict(script=bytes.fromhex(c['script']), stack=[bytes.fromhex(x) for x in c['stack']], flags=c.get('flags'))), cmds=c['cmds']), ctx)
